@@ -73,7 +73,7 @@ Clauses(r, gs, cs, n) ==
                  /\ \A s \in (Len(gs) + 1)..Len(newg) : r.types[s] = newg[s].type
         qmd == /\ Len(r.lookups) = Len(newg)
                /\ \A s \in 1..Len(newg) : r.lookups[s] = newg[s].qmd
-        isval == a.act = "ValueStart"
+        isval == a.act \in {"ValueStart", "ValueSync"}
         noexec == isval \/ r.newexec = <<>>
         onecall == ~isval \/ Len(r.newexec) = 1
         e == r.newexec[1]
@@ -82,11 +82,12 @@ Clauses(r, gs, cs, n) ==
         cleanast == ~isval \/ Len(r.newexec) # 1 \/ e.ast = RemoveEmptyMD(gs[a.s].view)
         title == ~isval \/ Len(r.newexec) # 1 \/ e.title = a.title
         hashq == ~isval \/ Len(r.newexec) # 1 \/ (e.hash = e.shash /\ e.dump = e.sdump)
-        iscomp == a.act \in {"ExecReturn", "ExecRaise"}
+        iscomp == a.act \in {"ExecReturn", "ExecRaise", "ValueSync"}
         deliver == IF iscomp
                    THEN /\ Len(r.done) = 1
                         /\ r.done[1].c = a.c
-                        /\ r.done[1].kind = (IF a.act = "ExecReturn" THEN "ret" ELSE "raise")
+                        /\ r.done[1].kind = (CASE a.act = "ExecReturn" -> "ret" [] a.act = "ExecRaise" -> "raise"
+                                                [] OTHER -> a.op)
                         /\ r.done[1].val = a.v
                    ELSE r.done = <<>>
         noexc == r.exc = ""
@@ -110,7 +111,7 @@ Next ==
            n  == IF r.step = 1 THEN 0 ELSE nds
            cl == Clauses(r, gs, cs, n)
        IN /\ g' = gs \o Created(r.a, gs, n)
-          /\ calls' = IF r.a.act = "ValueStart" THEN Append(cs, r.a) ELSE cs
+          /\ calls' = IF r.a.act \in {"ValueStart", "ValueSync"} THEN Append(cs, r.a) ELSE cs
           /\ nds' = IF r.a.act = "NewDataset" THEN n + 1 ELSE n
           /\ Serialize(ToJson([tid |-> r.tid, step |-> r.step, ok |-> cl = <<>>, clauses |-> cl]) \o "\n",
                        IOEnv.OUT_FILE, AppendOpt).exitValue = 0
